@@ -9,7 +9,8 @@
 From Coq Require Import NArith List String Bool.
 From Coq Require Import Strings.Byte.
 From PDL Require Import Base.Bits Base.Outcome Lang.Ast Lang.Sexp Analyzer.Schema Rust.Decode Rust.Runtime
-     Sem.RefEncode Proofs.DecodeSuffix Proofs.DecodeSafe Proofs.DecodeConsumes Proofs.RuntimeLaws.
+     Sem.RefEncode Analyzer.Passes Proofs.DecodeSuffix Proofs.DecodeSafe Proofs.DecodeConsumes Proofs.RuntimeLaws
+     Proofs.BitfieldEncode Proofs.RoundTrip Proofs.SchemaEnums Proofs.RoundTripReal.
 Import ListNotations.
 Open Scope N_scope.
 
@@ -47,3 +48,27 @@ Theorem C04_bitfield_declarations_consume_exactly_their_size :
     len bs = len rest + total / 8.
 Proof. exact rust_dec_decl_bits_consumes. Qed.
 Print Assumptions C04_bitfield_declarations_consume_exactly_their_size.
+
+(** The decoder ACCEPTS every reference encoding of a root declaration of the bit-field
+    fragment and yields exactly the reference's field values, leaving exactly the bytes
+    that follow: with the schema the analyzer computes and enums the analyzer accepts, for
+    every value, byte order, overflow mode, fuel and trailing bytes [tl] (or pdlc refused
+    the declaration: a group wider than 64 bits).  Fixed fields are matched, reserved bits
+    skipped, enum values checked -- the "reference accepts => decoder accepts, same
+    values" half of the property on that fragment. *)
+Theorem C04_decoder_accepts_reference_encodings_of_bitfield_declarations :
+  forall (fuel : nat) (oc : bool) (fl : file) (sch : schema)
+         (refrec : string -> value -> option (list seg)) (d : decl) (all_fields : list field)
+         (o : list (string * value)) (payload ss : list seg) (tl : list byte),
+    enum_widths_fit fl = true -> mk_schema fl = Some sch ->
+    enums_accepted fl ->
+    get_parent fl d = None ->
+    forallb (bf_field fl) (decl_fields d) = true ->
+    ref_enc_fields fl refrec d all_fields [] o payload (decl_fields d) 0 0 = Some ss ->
+    match rust_dec_decl (S fuel) oc fl sch d (render (f_endian fl) ss ++ tl) with
+    | Ok r => r = (VObj (vals_of o (decl_fields d)), tl)
+    | Panic GenAssert => True
+    | _ => False
+    end.
+Proof. exact rust_decode_accepts_reference_real_schema. Qed.
+Print Assumptions C04_decoder_accepts_reference_encodings_of_bitfield_declarations.
